@@ -32,6 +32,7 @@ def run_entry(text, entry, judge=None, opts=None, extra_modules=(), guide=None):
         ex.guide = guide
     if opts.get('tape') is not None:
         ex.tape = opts['tape']
+    ex.solver.cross_budget = opts.get('crosscheck', 3)
     ex.max_wall = opts.get('max_wall', 0)
     ex.limit_is_hang = opts.get('limit_is_hang', False)
     ex.preempt_bound = opts.get('preempt_bound', 0)
@@ -62,6 +63,7 @@ def run_entry(text, entry, judge=None, opts=None, extra_modules=(), guide=None):
     res = dict(entry=entry, status=status, error=err, paths=len(ex.results), path_status=dict(pstat),
                violations=[v.to_json() for v in ex.violations],
                obligations_solver=ex.obl_solver, obligations_normalised=ex.obl_concrete, obligations_failed=ex.obl_failed,
+               crosschecked=ex.solver.cross_done, cross_disagree=ex.solver.cross_disagree,
                queries=ex.solver.queries, solver_s=round(ex.solver.time, 3), max_query_s=round(ex.solver.maxq, 3),
                wall_s=round(time.time() - t0, 3), reached=dict(ex.reached), forks=ex.forks,
                steps=sum(r.steps for r in ex.results), funcs=sorted(ex.funcs_run),
